@@ -362,6 +362,19 @@ pub fn check_c14(gs: &GraphSpec, st: &mut Stats, out: &mut Vec<Violation>) {
         })
         .unwrap();
         res.push(("try_for_each", false, o));
+        {
+            // a clone (and a clone of the clone) is a graph like any other
+            let c = g.clone();
+            res.push(("iter(clone)", false, c.iter().map(|f| f.idx).collect()));
+            res.push(("iter_rev(clone)", true, c.iter_rev().map(|f| f.idx).collect()));
+            let mut c2 = c.clone();
+            drop(c);
+            res.push(("iter_rev(clone of clone)", true, c2.iter_rev().map(|f| f.idx).collect()));
+            res.push(("fold(clone of clone)", false, c2.fold(Vec::new(), |mut s, f| {
+                s.push(f.idx);
+                s
+            })));
+        }
         let ins: Vec<usize> = g.iter_insertion().map(|f| f.idx).collect();
         let ins_mut: Vec<usize> = g.iter_insertion_mut().map(|f| f.idx).collect();
         let ins_idx: Vec<(usize, usize)> = g.iter_insertion_with_indices().map(|(i, f)| (i.index(), f.idx)).collect();
